@@ -21,6 +21,7 @@ import (
 	ibftstorage "github.com/bloxapp/ssv/ibft/storage"
 	"github.com/bloxapp/ssv/protocol/v2/qbft"
 	"github.com/bloxapp/ssv/protocol/v2/qbft/controller"
+	"github.com/bloxapp/ssv/protocol/v2/qbft/instance"
 	qbftstorage "github.com/bloxapp/ssv/protocol/v2/qbft/storage"
 	ssvtypes "github.com/bloxapp/ssv/protocol/v2/types"
 	"github.com/bloxapp/ssv/storage/basedb"
@@ -203,7 +204,10 @@ type Config struct {
 	FullNode   bool
 	Role       spectypes.BeaconRole
 	NoSelfLoop bool
-	ByzIDs     []int // optional explicit choice of the Byzantine operators (indices 0..N-1); nil = drawn by the rng
+	// RunnerCompaction: after every delivered round-change or decided-shaped message the instance of that height is
+	// compacted exactly like runner.compactInstanceIfNeeded does in the real node (the controller alone never compacts).
+	RunnerCompaction bool
+	ByzIDs           []int // optional explicit choice of the Byzantine operators (indices 0..N-1); nil = drawn by the rng
 }
 
 type Cluster struct {
@@ -220,7 +224,7 @@ type Cluster struct {
 	Steps  int
 	Acts   []string // action log (compact) for replay/witness
 	// counters
-	Delivered, Dropped, Duplicated, Timeouts, ByzMsgs, ByzAccepted int
+	Delivered, Dropped, Duplicated, Timeouts, ByzMsgs, ByzAccepted, Compactions int
 	// hooks (monitors)
 	OnSave     func(n *Node, ev SaveEvent)
 	OnReturned func(n *Node, decided *specqbft.SignedMessage, via *specqbft.SignedMessage)
@@ -356,6 +360,14 @@ func (c *Cluster) Deliver(n *Node, m *specqbft.SignedMessage, byz bool) error {
 		return err
 	}
 	dec, err := n.Ctrl.ProcessMsg(c.Env.Logger, cp)
+	if c.Cfg.RunnerCompaction {
+		if inst := n.Ctrl.StoredInstances.FindInstance(cp.Message.Height); inst != nil {
+			if cp.Message.MsgType == specqbft.RoundChangeMsgType || (cp.Message.MsgType == specqbft.CommitMsgType && n.Share.HasQuorum(len(cp.Signers))) {
+				instance.Compact(inst.State, cp)
+				c.Compactions++
+			}
+		}
+	}
 	n.Trace = append(n.Trace, Input{Kind: InMsg, Msg: m, Err: err != nil})
 	c.Delivered++
 	if byz && err == nil {
